@@ -249,6 +249,32 @@ def run(E: Engine, rep: Report, tier: str) -> dict:
     for l in ns_:
         guarded = any(t[0] == "ifexp" and any(u[0] == "call" and u[1][0] == "attr" and u[1][2] in ("any", "all", "sum", "count_nonzero") for u in _symC.subterms(t[1])) for t in _symC.subterms(l.value))
         rep.check(guarded, "DIV0", "BlackmanWaveform.__init__|window-never-all-zero", "the normalised window is replaced when it is identically zero", "BlackmanWaveform divides the area by the sum of np.clip(np.blackman(duration), 0, inf), which is [0, 0] for duration 2: BlackmanWaveform(2, area) (also reached through change_duration(2)) is all NaN, and Pulse accepts it because nan < 0 is False", E.where(bi, l.node))
+        # ... and the test is made on the window that is stored: whatever is applied to the window after the test
+        #     (np.clip turns np.blackman(2) = [-1.4e-17, -1.4e-17] into [0, 0]) can make it all zero again
+        core = _unK(l.value)
+        while core[0] == "call" and len(core[2]) >= 1 and (core[1] in (("attr", ("name", "pm"), "AbstractArray"), ("attr", ("name", "np"), "asarray"), ("attr", ("name", "np"), "array"))):
+            core = _unK(core[2][0])
+        if guarded:
+            tested = [u[2][0] for t in ([core] if core[0] == "ifexp" else []) for u in _symC.subterms(t[1]) if u[0] == "call" and u[1][0] == "attr" and u[1][2] in ("any", "all", "sum", "count_nonzero") and u[2]]
+            same = core[0] == "ifexp" and any(_unK(w) in (_unK(core[2]), _unK(core[3])) for w in tested)
+            rep.check(same, "DIV0", "BlackmanWaveform.__init__|all-zero-test-on-the-stored-window", "stored window = W if any(W) else <flat>", f"the stored window is `{_shC(core, 140)}`: the all-zero test is not made on the window that is stored (it is transformed after the test), so np.blackman(2) = [-1.4e-17, -1.4e-17] passes the test and is then clipped to [0, 0] -- BlackmanWaveform(2, area) is all NaN", E.where(bi, l.node))
+    # (a') BlackmanWaveform.from_max_val lengthens the window only while max_val is SURPASSED: a window whose peak lands
+    #      exactly on max_val does not exceed it, and one more nanosecond gives a peak further from it
+    bf = E.method("pulser.waveforms.BlackmanWaveform", "from_max_val")
+    n_step = 0
+    for l in _SK(E, bf, inline=False).logged("assign"):
+        if not l.loops or l.target != ("name", "duration"):
+            continue
+        for x in _symC.conj_of(l.cond):
+            inner = x[1] if x[0] == "not" else x
+            if inner[0] != "cmp" or inner[1] not in ("Lt", "Gt", "LtE", "GtE") or not (_mentC(inner, "_scaling") and _mentC(inner, "max_val")):
+                continue
+            n_step += 1
+            strict = (inner[1] in ("Lt", "Gt")) if x[0] != "not" else (inner[1] in ("LtE", "GtE"))
+            rep.check(strict, "GUARD", "BlackmanWaveform.from_max_val|lengthened-only-while-max_val-is-surpassed", "the loop continues under scaling > max_val (strict)",
+                      f"BlackmanWaveform.from_max_val lengthens the window under `{_shC(x, 100)}`: a window whose peak EQUALS max_val does not surpass it, so from_max_val(10, 0.84) returns 202 ns (peak 9.95) although 201 ns (peak exactly 10) fits -- the result is no longer as close to max_val as whole nanoseconds allow", E.where(bf, l.node))
+    if n_step == 0:
+        rep.excepted("GUARD", "BlackmanWaveform.from_max_val|lengthened-only-while-max_val-is-surpassed", "no loop lengthening the window under a comparison of _scaling with max_val was recognised: not decided", E.where(bf))
     # (b) the stored phase lies in [0, 2pi): `x % 2pi` of a tiny negative x rounds to 2pi itself, so the modulo is applied
     #     twice (or the result is otherwise brought below 2pi)
     pi_f = E.fn("pulser.pulse.Pulse.__init__")
